@@ -35,6 +35,8 @@ class OnionWorld:
         self.ident_map = {}     # (kind, node, real) -> spec ident
         self.n_ident = 0
         self.raw_log = []       # on_raw_data observations at originators
+        self.orig_cid = {}      # datagram seq -> circuit id it carried before the attacker rewrote it
+        self.escaped = []       # exceptions that escaped the receive path during a delivery
         self.keys = {}          # every session key that ever existed in a table (for measuring layer depth)
         self.exits = set(exits)
         settings = settings or {}
@@ -261,7 +263,7 @@ class OnionWorld:
             import struct
             cid = struct.unpack_from("!I", d, 23)[0]
             rec.update({"t": "cell", "cid": self.cid_map.get(cid, 0), "plain": d[27] != 0, "early": d[28] != 0,
-                        "depth": 0 if d[27] != 0 else self.measure_depth(d[29:])})
+                        "depth": self.measure_depth(d[29:])})
         elif d[:22] == prefix and len(d) > 22 and d[22] == 8:
             rec.update({"t": "destroy"})
             try:
@@ -335,7 +337,13 @@ class OnionWorld:
     # -- network steps
     def deliver(self, seq):
         i = self.find(seq)
-        self.loop.call(self.net.deliver_next, i)
+        try:
+            self.loop.call(self.net.deliver_next, i)
+        except Exception as exc:  # noqa: BLE001 - an exception reaching the transport callback is a finding, not a crash
+            import traceback
+            tb = traceback.extract_tb(exc.__traceback__)
+            site = next(("%s:%s" % (f.filename.split("/ipv8/")[-1], f.name) for f in reversed(tb) if "/ipv8/" in f.filename), "?")
+            self.escaped.append({"seq": seq, "exc": type(exc).__name__, "site": site, "msg": str(exc)[:200]})
         return self.log("Deliver", id=seq)
 
     def lose(self, seq):
@@ -358,6 +366,36 @@ class OnionWorld:
         b[pos] ^= (1 << bit)
         d.data = bytes(b)
         return self.log("Tamper", id=seq, pos=pos)
+
+    def tamper_header(self, seq, what):
+        import struct
+        d = self.net.inflight[self.find(seq)]
+        b = bytearray(d.data)
+        if what == "drop":
+            if len(b) > 22 and b[22] == 8:
+                b[-1 - self.rng.randrange(64)] ^= 1 << self.rng.randrange(8)     # signature of a destroy
+            else:
+                pos = self.rng.randrange(min(23, len(b)))
+                b[pos] ^= 1 << (self.rng.randrange(8) if pos < 22 else self.rng.choice([0, 1, 2, 4, 5, 6, 7]))
+        elif what == "cid":
+            while True:
+                c = bytearray(b)
+                c[23 + self.rng.randrange(4)] ^= 1 << self.rng.randrange(8)
+                if struct.unpack_from("!I", c, 23)[0] not in self.cid_map:
+                    b = c
+                    break
+        elif what == "plain":
+            b[27] = 0 if b[27] else 1
+        elif what == "early":
+            b[28] = 0 if b[28] else 1
+        d.data = bytes(b)
+        if what == "drop":
+            # the datagram is no longer a tunnel message: hand it to the receiver right away, it must be inert
+            try:
+                self.loop.call(self.net.deliver_next, self.find(seq))
+            except Exception as exc:  # noqa: BLE001
+                self.escaped.append({"seq": seq, "exc": type(exc).__name__, "site": "header-tamper", "msg": str(exc)[:200]})
+        return self.log("TamperHeader", id=seq, what=what)
 
     def splice(self, seq, spec_cid):
         import struct
@@ -401,6 +439,8 @@ class OnionWorld:
         from ipv8.messaging.anonymization.payload import CreatePayload
         ov = self.ov[dst]
         cid_real = self.real_cid(spec_cid) if spec_cid else self._unknown_cid()
+        if not spec_cid:
+            self.cid(cid_real)      # a fresh circuit id chosen by the attacker: allocated like any other
         from ipv8.keyvault.crypto import default_eccrypto
         eph = default_eccrypto.generate_key("curve25519")
         pl = CreatePayload(cid_real, 7, self.adv.my_peer.public_key.key_to_bin(), eph.get_crypt_pk())
@@ -458,12 +498,13 @@ class OnionWorld:
         elif how == "cid":
             others = [c for c in self.cid_map if c != cid_real]
             new_cid = others[0] if others else self._unknown_cid()
+            self.orig_cid.setdefault(seq, cid_real)
         elif how == "eph":
             from ipv8.keyvault.crypto import default_eccrypto
             key = default_eccrypto.generate_key("curve25519").get_crypt_pk()
         elif how == "ephauth":
             # own ephemeral key with an auth that is correct for it: needs the initiator's public ephemeral from the create
-            create = self._find_create_for(cid_real, d)
+            create = self._find_create_for(self.orig_cid.get(seq, cid_real), d)
             crypto = TunnelCrypto()
             crypto.initialize(self.adv.my_peer.key)
             _shared, key, auth = crypto.generate_diffie_shared_secret(create)
@@ -474,7 +515,7 @@ class OnionWorld:
         npl = CreatedPayload(new_cid, ident, key, auth, cands)
         message = bytes([3]) + ov.serializer.pack_serializable(npl)[4:]
         d.data = self._cell_bytes(new_cid, True, data[28] != 0, message)
-        return self.log("MangleAnswer", id=seq, how=how)
+        return self.log("MangleAnswer", id=seq, how=how, cid=self.cid_map.get(new_cid, 0) if how == "cid" else 0)
 
     def _find_create_for(self, cid_real, created_dg):
         import struct
